@@ -159,3 +159,37 @@ mod tests {
         assert_eq!(1, obj.get_frequency_of_word("baz", &ctx), "baz");
     }
 }
+
+#[cfg(chokan_verif)]
+impl ConversionFrequency {
+    /// verification hook: (context, word, count, last occurrence) of every learned entry
+    pub fn verif_entries(&self) -> Vec<(Context, String, u64, i64)> {
+        self.frequencies
+            .iter()
+            .map(|(k, v)| match k {
+                ConvertedResult::Word { context, word } => {
+                    (context.clone(), word.clone(), v.count, v.last_occurrance)
+                }
+            })
+            .collect()
+    }
+
+    /// verification hook: a frequency table with the given entries (timestamps included)
+    pub fn verif_from_entries(entries: &[(Context, String, u64, i64)]) -> ConversionFrequency {
+        let mut f = ConversionFrequency::new();
+        for (c, w, n, last) in entries {
+            f.frequencies.insert(
+                ConvertedResult::Word {
+                    context: c.clone(),
+                    word: w.clone(),
+                },
+                Frequency {
+                    count: *n,
+                    last_occurrance: *last,
+                },
+            );
+        }
+        f
+    }
+}
+
